@@ -20,9 +20,9 @@ G53 = hm.G53
 # tolerances (class of the less accurate route); measured numbers = worst mismatch of the unchanged tree over the
 # thorough lattice (recorded defects excluded)
 # ---------------------------------------------------------------------------------------------------------------
-TOL_A = 1e-10          # two closed forms / the same code reached through a wrapper: measured <= 2.3e-13 (routes b-f)
-TOL_BB = 1e-6          # black-box Noh: Newton to 1e-10 in the jump state (class B); measured <= 3.4e-11
-TOL_SERIES = 1e-9      # BC3 vs mirrored BC4: term-by-term identical truncated series; measured <= 1.6e-12
+TOL_A = 1e-10          # two closed forms / the same code reached through a wrapper: measured <= 2.6e-13 (Kenamond3), 0 for wrappers
+TOL_BB = 1e-6          # black-box Noh: Newton to 1e-10 in the jump state (class B); measured <= 2.5e-13 on the physical root
+TOL_SERIES = 1e-9      # BC3 vs mirrored BC4: term-by-term identical truncated series; measured <= 7.9e-14
 
 
 # IGEOS vs GenEOS (class C).  The accuracy of the general-EOS route depends strongly on the problem (uniform-in-pressure
@@ -31,7 +31,8 @@ TOL_SERIES = 1e-9      # BC3 vs mirrored BC4: term-by-term identical truncated s
 # measured from the route itself: d_ref = max |GenEOS(N) - GenEOS(4N)| over the compared points (Richardson), and
 #     tol = min(A_CAP, A_FACTOR * d_ref + A_FLOOR).
 # For any convergence order >= 1 the true error of GenEOS(N) is <= 4/3 d_ref, so A_FACTOR = 10 leaves >= 7.5x margin.
-# Measured over the thorough lattice (recorded defects excluded): worst mismatch/tol = 0.21; worst mismatch 2.5e-3.
+# Measured over the thorough lattice (1742 comparisons, recorded defects excluded): worst mismatch 2.5e-3 (LeBlanc), worst
+# mismatch/tol 0.13, worst (difference at 4N)/(difference at N) 0.25; the recorded IGEOS defect sits at 0.3-0.6.
 A_FACTOR, A_FLOOR, A_CAP = 10.0, 2e-4, 2e-2
 
 
@@ -218,7 +219,7 @@ def run_a(task, ctx):
                 ctx.worst["IGEOS~GenEOS:mismatch/tol"] = max(ctx.worst.get("IGEOS~GenEOS:mismatch/tol", 0.0), d1 / tol)
                 ctx.worst["IGEOS~GenEOS:fine/coarse"] = max(ctx.worst.get("IGEOS~GenEOS:fine/coarse", 0.0), d2 / max(d1, A_FLOOR))
             # convergence, not mere closeness: with 4x the table and grid points the difference to IGEOS must shrink
-            # (measured: d2/max(d1, floor) <= 0.27 over the thorough lattice)
+            # (measured: d2/max(d1, floor) <= 0.25 over the thorough lattice)
             if d1 <= tol and d2 > max(0.5 * d1, A_FLOOR):
                 ctx.violation(pair, c, "agree:convergence:" + f, where, d2, max(0.5 * d1, A_FLOOR), {"diff_N": d1, "diff_4N": d2})
         ctx.count("a:refinements")
@@ -236,7 +237,7 @@ def run_a(task, ctx):
         if weak:
             ctx.count("a:pattern_compare_skipped_zero_strength_wave")
         else:
-            tolv = A_CAP          # reported speeds: fixed 2e-2 of (|V| + c); measured worst 2.3e-3 (LeBlanc), the recorded defect 0.59
+            tolv = A_CAP          # reported speeds: fixed 2e-2 of (|V| + c); measured worst 3.5e-3 over the thorough lattice, the recorded defect 0.59
             if patI != patG:
                 ctx.violation(pair, c, "agree:wave-pattern", where, 1.0, 0.0, {"IGEOS": patI, "GenEOS": patG})
             elif len(VI) == len(VG):
@@ -598,22 +599,45 @@ def run_e(task, ctx):
         x = np.linspace(0.0, L, 25)
         S = max(abs(c["TL"]), abs(c["TR"]), abs(c["T1"]), abs(c["F2"]) * L, 1e-300)
         for t in E_TIMES:
-            A = ctx.call(bc3, x, t)
-            Bm = ctx.call(bc4, L - x, t)
-            ctx.compare("Rod1D:BC3~mirror(BC4)", c, {"t": t}, A, Bm, ["temperature"], TOL_SERIES, scales={"temperature": S}, floor=1.0)
+            both = _both(ctx, "Rod1D:BC3~mirror(BC4)", c, t, lambda: ctx.call(bc3, x, t), lambda: ctx.call(bc4, L - x, t))
+            if both:
+                ctx.compare("Rod1D:BC3~mirror(BC4)", c, {"t": t}, both[0], both[1], ["temperature"], TOL_SERIES, scales={"temperature": S}, floor=1.0)
         return
     name = task["sandwich"]
     path, _, mapping = E_SANDWICH[name]
     c = lattice.full_cfg(sandwich_alphabet(name), task["dev"])
-    sW = construct(path, c)
+    pair = "%s~Rod1D" % name
     rodkw = {k: c[k] for k in E_COMMON}
     rodkw.update(mapping(c))
-    sR = construct("heat.rod1d.Rod1D", rodkw)
+    try:
+        sW = construct(path, c)
+        sR = construct("heat.rod1d.Rod1D", rodkw)
+    except Inadmissible:
+        ctx.count("inadmissible_vectors")
+        return
     x = np.linspace(0.0, c["L"], 25)
     for t in E_TIMES:
-        A = ctx.call(sR, x, t)
-        Bw = ctx.call(sW, x, t)
-        ctx.compare("%s~Rod1D" % name, c, {"t": t}, A, Bw, ["temperature"], TOL_A, floor=1.0)
+        both = _both(ctx, pair, c, t, lambda: ctx.call(sR, x, t), lambda: ctx.call(sW, x, t))
+        if both:
+            ctx.compare(pair, c, {"t": t}, both[0], both[1], ["temperature"], TOL_A, floor=1.0)
+
+
+def _both(ctx, pair, cfg, t, fa, fb):
+    """Call both routes; a raising call is C20's business, but the two routes must have the *same* outcome."""
+    outs = []
+    for fn in (fa, fb):
+        try:
+            outs.append(("ok", fn()))
+        except Exception as ex:
+            outs.append(("exc", type(ex).__name__))
+    if outs[0][0] == "ok" and outs[1][0] == "ok":
+        return outs[0][1], outs[1][1]
+    ctx.dg.add("exc", str(outs[0][1])[:40], str(outs[1][1])[:40])
+    if outs[0][0] != outs[1][0] or outs[0][1] != outs[1][1]:
+        ctx.violation(pair, cfg, "agree:outcome", {"t": t}, 1.0, 0.0, {"first_route": str(outs[0][1])[:60], "second_route": str(outs[1][1])[:60]})
+    else:
+        ctx.count("call_exception:%s:%s" % (pair, outs[0][1]))
+    return None
 
 
 # ---------------------------------------------------------------------------------------------------------------
@@ -674,9 +698,9 @@ def run_f(task, ctx):
     except Inadmissible:
         ctx.count("inadmissible_vectors")
         return
-    A = ctx.call(s2, P2, 0.0)
-    Bs = ctx.call(s3, P3, 0.0)
-    ctx.compare("%s:2D~3D" % name, c, {}, A, Bs, ["burntime"], TOL_A, floor=1.0)
+    both = _both(ctx, "%s:2D~3D" % name, c, 0.0, lambda: ctx.call(s2, P2, 0.0), lambda: ctx.call(s3, P3, 0.0))
+    if both:
+        ctx.compare("%s:2D~3D" % name, c, {}, both[0], both[1], ["burntime"], TOL_A, floor=1.0)
 
 
 ROUTES = {"a": (tasks_a, run_a), "b": (tasks_b, run_b), "c": (tasks_c, run_c), "d": (tasks_d, run_d), "e": (tasks_e, run_e),
